@@ -81,6 +81,29 @@ type expCheck struct {
 	res  *RunResult
 	task int
 	op   int
+	// deferred reads: a returned reader is only read after further exports have
+	// happened, so that a reader aliasing recycled memory shows
+	pending *[]pendingRead
+	deferRd bool
+}
+
+type pendingRead struct {
+	rd   io.Reader
+	want string
+	what string
+	tmpl string
+	op   int
+}
+
+func drainPending(res *RunResult, pend *[]pendingRead) {
+	for _, p := range *pend {
+		out, _ := readAllReader(p.rd)
+		res.Stats.count("deferred-reads")
+		if out != p.want {
+			res.addViolation("export:output-mismatch:"+p.what+":deferred-read", fmt.Sprintf("%s: the returned reader was read only after later exports and yields %s; text/template=%s template=%s", p.what, strconv.Quote(clip(out, 400)), strconv.Quote(clip(p.want, 400)), strconv.Quote(clip(p.tmpl, 400))), 0, p.op)
+		}
+	}
+	*pend = (*pend)[:0]
 }
 
 func readAllReader(rd io.Reader) (string, bool) {
@@ -128,6 +151,10 @@ func (c *expCheck) checkFaithful(what, tmpl string, rd io.Reader, err error, ref
 		c.res.addViolation("export:error-on-valid:"+what, fmt.Sprintf("%s: text/template renders this template but export returned %q; template=%s", what, err.Error(), strconv.Quote(clip(tmpl, 400))), c.task, c.op)
 		return false
 	}
+	if c.deferRd && c.pending != nil && rd != nil && !isNilReader(rd) {
+		*c.pending = append(*c.pending, pendingRead{rd: rd, want: refOut, what: what, tmpl: tmpl, op: c.op})
+		return true
+	}
 	out, has := readAllReader(rd)
 	if !has {
 		c.res.addViolation("export:nil-reader-on-valid:"+what, fmt.Sprintf("%s: nil reader and nil error; template=%s", what, strconv.Quote(clip(tmpl, 400))), c.task, c.op)
@@ -153,10 +180,14 @@ func runC19(d *RunDesc, res *RunResult) {
 			res.Stats.CaseKeys = append(res.Stats.CaseKeys, h)
 		}
 	}
+	var pending []pendingRead
 	task := func() {
 		for i := range d.Tasks[0] {
 			op := &d.Tasks[0][i]
-			chk := &expCheck{res: res, task: 0, op: i}
+			// readers returned during the previous operation are read at the end of
+			// this one; every second export operation defers its reads
+			carried := len(pending)
+			chk := &expCheck{res: res, task: 0, op: i, pending: &pending, deferRd: i%2 == 1}
 			r := guard(func() string {
 				switch op.K {
 				case "dec", "rep":
@@ -272,11 +303,20 @@ func runC19(d *RunDesc, res *RunResult) {
 				}
 				return "skip"
 			})
-			if isPanic(r) {
+			if isDeadlock(r) {
+				res.addViolation("deadlock:"+op.K+":"+panicFrame(r), fmt.Sprintf("the export never returns (text/template itself renders or rejects this template). %s; template=%s", r, strconv.Quote(clip(op.Tmpl, 400))), 0, i)
+			} else if isPanic(r) {
 				res.addViolation("panic:"+op.K+":"+panicFrame(r), fmt.Sprintf("%s; template=%s", r, strconv.Quote(clip(op.Tmpl, 400))), 0, i)
+			}
+			if carried > 0 {
+				old := append([]pendingRead{}, pending[:carried]...)
+				rest := append([]pendingRead{}, pending[carried:]...)
+				drainPending(res, &old)
+				pending = rest
 			}
 			simrt.Note(hashString(r))
 		}
+		drainPending(res, &pending)
 	}
 	sr := simrt.Run(cfg, []func(){task})
 	res.FP = sr.FP
